@@ -174,6 +174,7 @@ CONDS = {'keep_n_small': keep_n_small, 'keep_id_mod3': keep_id_mod3}
 class Env:
     def __init__(self, tag=''):
         self.tag = tag
+        self.printers = {}         # printer key -> {'headers': [...], 'tables': [...]}
         self.printed = []          # (resource name) headers
         self.tables_printed = []
         self.streams = {}          # key -> StringIO
@@ -733,7 +734,7 @@ class AppendLoad:
 class Printer:
     @staticmethod
     def gen(rng, shape):
-        return {'op': 'printer', 'num_rows': rng.choice([1, 3, 10])}
+        return {'op': 'printer', 'num_rows': rng.choice([1, 3, 10]), 'key': 'p%d' % rng.randint(0, 10 ** 6)}
 
     @staticmethod
     def shape(spec, shape):
@@ -741,7 +742,17 @@ class Printer:
 
     @staticmethod
     def build(spec, env):
-        return lab.df().printer(num_rows=spec['num_rows'], header_print=env.sink_header, table_print=env.sink_table)
+        # output is recorded per printer instance: several printers of one lazily evaluated flow interleave
+        rec = env.printers.setdefault(spec.get('key', 'p'), {'headers': [], 'tables': []})
+
+        def header(name, kw):
+            rec['headers'].append(name)
+            env.sink_header(name, kw)
+
+        def table(data, kw):
+            rec['tables'].append(data)
+            env.sink_table(data, kw)
+        return lab.df().printer(num_rows=spec['num_rows'], header_print=header, table_print=table)
 
 
 @op('dump_to_path', streaming=True, observer=True)
